@@ -331,7 +331,30 @@ func oracleLines(c *Ctx, spc *MsgSpec, out []byte) {
 	c.rep.OracleChecked++
 	ent, err := parseEntity(out, 0)
 	if err != nil {
-		return // reported by the C01/C02 oracles
+		// a header section with a bare CR or LF: the library's doing unless the caller supplied one in a
+		// preformatted value (those are written as given)
+		if strings.Contains(err.Error(), "bare CR or LF in header") {
+			clean := true
+			for _, g := range spc.Gen {
+				if !g.Pre {
+					continue
+				}
+				for _, v := range g.Values {
+					for i := 0; i < len(v); i++ {
+						if v[i] == '\r' && (i+1 >= len(v) || v[i+1] != '\n') {
+							clean = false
+						}
+						if v[i] == '\n' && (i == 0 || v[i-1] != '\r' || i+1 >= len(v) || (v[i+1] != ' ' && v[i+1] != '\t')) {
+							clean = false
+						}
+					}
+				}
+			}
+			if clean {
+				c.Violate("c18-header-bare-cr-lf", err.Error(), spc)
+			}
+		}
+		return // otherwise reported by the C01/C02 oracles
 	}
 	var walk func(e *Entity, top bool)
 	walk = func(e *Entity, top bool) {
